@@ -509,6 +509,17 @@ where
                 return;
             }
             run.count("perfect_models", 1);
+            // lookup models obtained by conversion are constructible models too
+            let lk = m.to_lookup_decoder_model();
+            if let Some(t) = dec_only!(lk, "perfect.to_lookup_decoder_model()", "C03/categorical-lookup-conversion") {
+                if t.rows.len() != n {
+                    run.violation("invalid-model", "C03/categorical-lookup-conversion/support-mismatch", format!("to_lookup_decoder_model() {desc} :: {} symbols instead of {n}", t.rows.len()));
+                    return;
+                }
+            }
+            let glk = m.to_generic_lookup_decoder_model();
+            let _ = dec_only!(glk, "perfect.to_generic_lookup_decoder_model()", "C03/categorical-lookup-conversion");
+            run.count("lookup_models", 2);
         }
         Err(()) => run.count("valid_float_table_rejected", 1),
     }
